@@ -566,7 +566,7 @@ def _path(st, limit=12):
         -limit:]
 
 
-def analyse_writers(program, rep, only=None, prefix='C01'):
+def analyse_writers(program, rep, only=None, prefix='C01', label='teardown'):
     world = program.cls('World')
     results = {}
     problems = []
@@ -645,7 +645,7 @@ def analyse_writers(program, rep, only=None, prefix='C01'):
                                                             kv[0][3] or 0,
                                                             kv[0][2])):
         rname = 'C01.' + rule if prefix == 'C01' else \
-            f'{prefix}.teardown-{rule}'
+            f'{prefix}.{label}-{rule}'
         if r['bad']:
             b = r['bad'][0]
             rep.bad(rname, site_of(fn), text, b['why'],
